@@ -108,7 +108,7 @@ pub trait Service: Actor + Default {
             let registry = REGISTRY.read().await;
             registry
                 .get(&key)
-                .and_then(|addr| addr.downcast_ref::<Addr<Self>>().map(Addr::stopped))
+                .and_then(|addr| addr.downcast_ref::<Addr<Self>>().map(Addr::running))
         }
     }
 
